@@ -170,6 +170,8 @@ enum VOp {
     Start,
     /// a request whose destination the client rejects locally (300-byte domain): it may have dialled a session
     StartBad,
+    /// a request whose target refuses: the server answers with a failure verdict, the session stays healthy
+    StartRefused,
     Finish(usize),
     /// the server drops the j-th connection the client dialled
     Die(usize),
@@ -178,7 +180,7 @@ enum VOp {
 }
 
 fn vstr(h: &[VOp]) -> String {
-    h.iter().map(|o| match o { VOp::Start => "start".to_string(), VOp::StartBad => "start(destination rejected locally)".to_string(), VOp::Finish(i) => format!("finish({i})"), VOp::Die(j) => format!("die({j})"), VOp::Wait(0) => "wait(I/2)".to_string(), VOp::Wait(_) => "wait(>T+I)".to_string() }).collect::<Vec<_>>().join(",")
+    h.iter().map(|o| match o { VOp::Start => "start".to_string(), VOp::StartBad => "start(destination rejected locally)".to_string(), VOp::StartRefused => "start(target refuses)".to_string(), VOp::Finish(i) => format!("finish({i})"), VOp::Die(j) => format!("die({j})"), VOp::Wait(0) => "wait(I/2)".to_string(), VOp::Wait(_) => "wait(>T+I)".to_string() }).collect::<Vec<_>>().join(",")
 }
 
 /// One history on the real Client over the in-memory dialer seam, virtual time; same rule and keys as the LX family,
@@ -202,12 +204,14 @@ fn vhistory(interval_ms: u64, timeout_ms: u64, min_idle: usize, h: Vec<VOp>) -> 
             let mut killed: Vec<bool> = vec![];
             let mut peak = 0usize;
             let mut nreq = 0usize;
+            let mut closed_by_request: Vec<usize> = vec![];
             for (step, op) in h.iter().enumerate() {
                 let upto = || vstr(&h[..=step]);
                 match op {
-                    VOp::Start | VOp::StartBad => {
+                    VOp::Start | VOp::StartBad | VOp::StartRefused => {
                         nreq += 1;
                         let bad = *op == VOp::StartBad;
+                        let refused = *op == VOp::StartRefused;
                         let logs0 = w.logs();
                         let alive = |i: usize, logs: &Vec<ConnLog>, killed: &Vec<bool>| !logs[i].eof && !killed[i];
                         let healthy: Vec<usize> = (0..logs0.len()).filter(|i| alive(*i, &logs0, &killed)).collect();
@@ -217,9 +221,16 @@ fn vhistory(interval_ms: u64, timeout_ms: u64, min_idle: usize, h: Vec<VOp>) -> 
                         peak = peak.max(active.len() + 1);
                         // a request whose destination the client rejects locally: a domain name of 300 bytes
                         let host = if bad { "x".repeat(300) } else { "example.com".to_string() };
-                        let r = crate::sess::within(w.client.create_proxy_stream((host, 1000 + nreq as u16))).await;
+                        let r = crate::sess::within(w.client.create_proxy_stream((host, if refused { REFUSED_PORT } else { 1000 + nreq as u16 }))).await;
                         settle().await;
                         let logs1 = w.logs();
+                        // sessions that were healthy before this request and that the client itself closed while serving it
+                        // (the server did not drop them, no idle timeout passed): they do not stop counting as healthy
+                        for i in 0..logs0.len() {
+                            if !logs0[i].eof && logs1[i].eof && !killed[i] && !closed_by_request.contains(&i) {
+                                closed_by_request.push(i);
+                            }
+                        }
                         let dialled = logs1.len() - logs0.len();
                         for _ in 0..dialled {
                             in_pool.push(true);
@@ -248,11 +259,15 @@ fn vhistory(interval_ms: u64, timeout_ms: u64, min_idle: usize, h: Vec<VOp>) -> 
                                 active_conn.push(serving.unwrap_or(usize::MAX));
                                 peak = peak.max(active.len());
                             }
-                            Some(Err(_)) if bad => {}
+                            Some(Err(_)) if bad || refused => {}
                             other => {
                                 viols.push(("C13:request-failed".into(), format!("[{}] (virtual time): {:?}", upto(), other.map(|r| r.map(|_| ()).map_err(|e| e.to_string())))));
                                 break;
                             }
+                        }
+                        let closed_before: Vec<usize> = closed_by_request.iter().copied().filter(|i| *i < logs0.len() && logs0[*i].eof).collect();
+                        if none_active && healthy.is_empty() && dialled > 0 && !closed_before.is_empty() {
+                            viols.push(("C13:redial-after-client-closed-healthy-session".into(), format!("[{}] (virtual time, interval {interval_ms} ms, timeout {timeout_ms} ms): request #{nreq} dialled a new connection; connection(s) {:?} carried a healthy session until the client itself closed it while serving an earlier request (the server had not dropped it and no idle timeout had passed)", upto(), closed_before)));
                         }
                         if none_active && !healthy.is_empty() && dialled > 0 {
                             let key = if healthy_pooled.is_empty() { "C13:redial-while-healthy-session-exists:session-never-returned-to-pool" } else { "C13:redial-while-healthy-session-exists:pooled-session-ignored" };
@@ -336,6 +351,9 @@ fn vhistories(depth: usize) -> Vec<Vec<VOp>> {
             push(VOp::Start, active + 1, dials + 1, *deaths);
             if h.iter().filter(|o| **o == VOp::StartBad).count() < 1 {
                 push(VOp::StartBad, *active, dials + 1, *deaths);
+            }
+            if h.iter().filter(|o| **o == VOp::StartRefused).count() < 1 {
+                push(VOp::StartRefused, *active, dials + 1, *deaths);
             }
             for i in 0..*active {
                 push(VOp::Finish(i), active - 1, *dials, *deaths);
